@@ -447,23 +447,14 @@ func singleLaws(r *fw.R, cm canvas.Matrix, am oracle.Aff) {
 	if t.T() != cm {
 		viol(r, nil, "matrix-transpose", fmt.Sprintf("T().T() of %v is %v", cm, t.T()))
 	}
-	// Decompose: documented as (tx, ty, theta, sx, sy, phi) with m = Translate(tx,ty).Rotate(phi).Scale(sx,sy).Rotate(theta)
+	// Decompose: documented as (tx, ty, phi, sx, sy, theta) with m = Translate(tx,ty).Rotate(phi).Scale(sx,sy).Rotate(theta)
 	tx, ty, r3, sx, sy, r6 := cm.Decompose()
-	doc := oracle.AffTranslate(tx, ty).After(oracle.AffRotate(r6)).After(oracle.AffScale(sx, sy)).After(oracle.AffRotate(r3))
-	alt := oracle.AffTranslate(tx, ty).After(oracle.AffRotate(r3)).After(oracle.AffScale(sx, sy)).After(oracle.AffRotate(r6))
-	_, okDoc := near(doc, am, 1e-9)
-	_, okAlt := near(alt, am, 1e-9)
-	switch {
-	case okDoc && okAlt:
-		r.Outcome("decompose:both-readings-recompose")
-	case okDoc:
+	doc := oracle.AffTranslate(tx, ty).After(oracle.AffRotate(r3)).After(oracle.AffScale(sx, sy)).After(oracle.AffRotate(r6))
+	if _, ok := near(doc, am, 1e-9); ok {
 		r.Outcome("decompose:documented-reading-recomposes")
-	case okAlt:
-		r.Outcome("decompose:only-swapped-reading-recomposes")
-		viol(r, nil, "decompose-documented-order", fmt.Sprintf("m=%v: Decompose()=(%g,%g,%g,%g,%g,%g); the documented Translate(tx,ty).Rotate(6th).Scale(sx,sy).Rotate(3rd) gives %+v, but Translate(tx,ty).Rotate(3rd).Scale(sx,sy).Rotate(6th) gives m", cm, tx, ty, r3, sx, sy, r6, doc))
-	default:
-		r.Outcome("decompose:no-reading-recomposes")
-		viol(r, nil, "decompose-not-a-decomposition", fmt.Sprintf("m=%v: Decompose()=(%g,%g,%g,%g,%g,%g) recomposes to %+v / %+v", cm, tx, ty, r3, sx, sy, r6, doc, alt))
+	} else {
+		r.Outcome("decompose:does-not-recompose")
+		viol(r, nil, "decompose-does-not-recompose", fmt.Sprintf("m=%v: Decompose()=(%g,%g,%g,%g,%g,%g); the documented Translate(tx,ty).Rotate(3rd).Scale(sx,sy).Rotate(6th) gives %+v", cm, tx, ty, r3, sx, sy, r6, doc))
 	}
 	// ToSVG(h): SVG is y-down; canvas point (x,y) on a canvas of height h is SVG point (x,h-y) and
 	// content coordinates are flipped (x,-y): the SVG transform is F_h * m * F_0.
@@ -582,6 +573,12 @@ func Prop() *fw.Property {
 			"ToSVG(h) is read as flip_h * m * flip_0 (canvas y-up point (x,y) <-> SVG point (x,h-y), content flipped about its own origin), which is what the matrix(...) form and the translate(tx,h-ty) of the list form encode; printed with 8 decimals, compared at 1e-6",
 			"the image of a half ellipse (radii exactly spanning the chord) is read as a half ellipse if its lambda is within 1e-9 of 1",
 			"matrix words whose linear part has a condition number above 1e4 (two or three Scale(0.001,1) in a row) are skipped for Path.Transform and counted; the matrix laws still run on them",
+		},
+		KnownPredicates: map[string]func(*fw.Violation) bool{
+			// the matrix has no translation (the detail prints the input matrix as "m=(a b; c d) + (tx,ty)")
+			"zero-translation": func(v *fw.Violation) bool { return strings.Contains(v.Detail, ") + (0,0) ToSVG(") },
+			// the matrix word contains the 1000:1 anisotropic scale
+			"anisotropic-scale-1000": func(v *fw.Violation) bool { return strings.Contains(v.Case, "Scale(0.001,1)") },
 		},
 		Families: families,
 	}
